@@ -6,7 +6,7 @@ package transformers
 //
 // The real TransformerJoin (NewTransformerJoin, Transform, transformHalfStreaming, ingestLeftFile,
 // formAndEmitPairs, the unpaired emitters; for -s the real JoinBucketKeeper state machine) is run
-// on a left file of NL records and a right stream of NR records (NL, NR ≤ 2 quick / 3 thorough).
+// on a left file of NL records and a right stream of NR records (3 left records, 2 right records).
 // The only stub is input.Create: the left-file reader is a goroutine that posts the harness's left
 // records one per batch followed by the end-of-stream marker on the real reader channel (the
 // contract ingestLeftFile/readRecord assert themselves with InternalCodingErrorIf(len != 1)).
@@ -49,12 +49,7 @@ func c13InputCreate(o *cli.TReaderOptions, n int64) (input.IRecordReader, error)
 	return &c13Reader{}, nil
 }
 
-func c13N() int {
-	if verifTier() > 0 {
-		return 3
-	}
-	return 2
-}
+func c13N() int { return 3 } // left records (right: 2)
 
 // symbolic description of one side
 func c13Side(name string, n int) []c13Rec {
@@ -121,23 +116,44 @@ func c13Schemes() []c13Scheme {
 	}
 }
 
-func c13Opts(s c13Scheme, np, ul, ur, ie, sorted bool) *tJoinOptions {
-	opts := newJoinOptions()
-	opts.leftFileName = "left-file"
-	opts.leftJoinFieldNames = []string{s.lk}
-	opts.rightJoinFieldNames = []string{s.rk}
-	opts.outputJoinFieldNames = []string{s.ok}
-	opts.leftPrefix = s.lp
-	opts.rightPrefix = s.rp
-	if s.keepOnlyLid {
-		opts.leftKeepFieldNames = []string{"lid"}
+// the join verb built by its REAL command-line parser from the argv the options spell
+func c13Join(s c13Scheme, np, ul, ur, ie, sorted bool) *TransformerJoin {
+	argv := []string{"join", "-f", "left-file"}
+	if s.lk == s.rk && s.rk == s.ok {
+		argv = append(argv, "-j", s.ok)
+	} else {
+		argv = append(argv, "-l", s.lk, "-r", s.rk, "-j", s.ok)
 	}
-	opts.emitPairables = !np
-	opts.emitLeftUnpairables = ul
-	opts.emitRightUnpairables = ur
-	opts.ignoreEmptyJoinFields = ie
-	opts.allowUnsortedInput = !sorted
-	return opts
+	if s.lp != "" {
+		argv = append(argv, "--lp", s.lp)
+	}
+	if s.rp != "" {
+		argv = append(argv, "--rp", s.rp)
+	}
+	if s.keepOnlyLid {
+		argv = append(argv, "--lk", "lid")
+	}
+	if np {
+		argv = append(argv, "--np")
+	}
+	if ul {
+		argv = append(argv, "--ul")
+	}
+	if ur {
+		argv = append(argv, "--ur")
+	}
+	if ie {
+		argv = append(argv, "--ignore-empty")
+	}
+	if sorted {
+		argv = append(argv, "-s")
+	} else if verifChoice("spell_u", 2) == 1 {
+		argv = append(argv, "-u")
+	}
+	tr := verifVerb(argv...)
+	j, ok := tr.(*TransformerJoin)
+	verifAssert(ok && j != nil, "C13/constructed-from-its-command-line")
+	return j
 }
 
 // what the statement says about the three kinds of output record
@@ -192,10 +208,10 @@ func c13KeyOK(r c13Rec, ie bool) bool {
 }
 
 func c13Options() (np, ul, ur, ie bool) {
-	np = verifBool("np")
-	ul = verifBool("ul")
-	ur = verifBool("ur")
-	ie = verifBool("ignore_empty")
+	np = verifChoice("np", 2) == 1
+	ul = verifChoice("ul", 2) == 1
+	ur = verifChoice("ur", 2) == 1
+	ie = verifChoice("ignore_empty", 2) == 1
 	verifAssume(!np || ul || ur) // the CLI parser refuses "no output possible"
 	return
 }
@@ -212,8 +228,7 @@ func VerifC13_unsorted_vs_nested_loop() {
 	c13LeftRecs = c13Build(L, s.lk, "lid", "L")
 	rights := c13Build(R, s.rk, "rid", "R")
 
-	tr, err := NewTransformerJoin(c13Opts(s, np, ul, ur, ie, false))
-	verifAssert(err == nil && tr != nil, "C13/constructed")
+	tr := c13Join(s, np, ul, ur, ie, false)
 	out := c13Run(tr, rights)
 
 	// the right-driven part: right-stream order, left-file order within a key
@@ -306,13 +321,11 @@ func VerifC13_sorted_equals_unsorted_on_sorted_input() {
 	}
 
 	c13LeftRecs = c13Build(L, s.lk, "lid", "L")
-	tr1, err := NewTransformerJoin(c13Opts(s, np, ul, ur, ie, false))
-	verifAssert(err == nil && tr1 != nil, "C13/constructed")
+	tr1 := c13Join(s, np, ul, ur, ie, false)
 	out1 := c13Run(tr1, c13Build(R, s.rk, "rid", "R"))
 
 	c13LeftRecs = c13Build(L, s.lk, "lid", "L")
-	tr2, err := NewTransformerJoin(c13Opts(s, np, ul, ur, ie, true))
-	verifAssert(err == nil && tr2 != nil, "C13/constructed")
+	tr2 := c13Join(s, np, ul, ur, ie, true)
 	out2 := c13Run(tr2, c13Build(R, s.rk, "rid", "R"))
 
 	verifAssert(len(out1) == len(out2), "C13/sorted-mode-same-number-of-records")
